@@ -324,14 +324,26 @@ func c19run(c *fw.Ctx, idx int) {
 		}
 		c.Distinct(fmt.Sprintf("%s|%d files|%d dirs", kind, len(files), len(dirs)))
 	case "embedfs":
-		l := embedfs.NewLoader("embedtree", c19embed)
-		if idx%2 == 1 {
-			l = embedfs.NewLoader("embedtree/sub", c19embed)
-		}
 		base := "embedtree"
 		if idx%2 == 1 {
 			base = "embedtree/sub"
 		}
+		// the root may be spelt in any way that names that directory
+		rootSpelling := base
+		switch (idx / 2) % 6 {
+		case 1:
+			rootSpelling = base + "/"
+		case 2:
+			rootSpelling = "./" + base
+		case 3:
+			rootSpelling = base + "/deep/.."
+		case 4:
+			rootSpelling = "embedtree/../" + base
+		case 5:
+			rootSpelling = base + "//"
+		}
+		hist = append(hist, c19op{Op: "NewLoader", Path: rootSpelling})
+		l := embedfs.NewLoader(rootSpelling, c19embed)
 		n := 0
 		fs.WalkDir(c19embed, base, func(p string, d fs.DirEntry, err error) error {
 			if err != nil {
@@ -364,7 +376,7 @@ func c19run(c *fw.Ctx, idx int) {
 				}
 			}
 		}
-		c.Distinct(fmt.Sprintf("embedfs|%s|%d", base, n))
+		c.Distinct(fmt.Sprintf("embedfs|%s|%d", rootSpelling, n))
 	case "multidir":
 		// a file-system loader holding a DIRECTORY under the name another loader holds a template
 		root, err := os.MkdirTemp(os.Getenv("VCHECK_TMP"), "c19m-")
